@@ -417,6 +417,7 @@ fn extra_programs() -> Vec<ArgCase> {
         out.push(ArgCase { prog: Prog { main, subs, declare: true, ..Default::default() }, label: format!("array element by reference: {}", label), expect_reject: false });
     }
     out.extend(multi_element_programs());
+    out.extend(forwarding_programs());
     // a STATIC subprogram that calls itself: its variables are shared by the activations, its parameters are not
     for variant in 0..7 {
         for depth in 1..=3 {
@@ -540,6 +541,156 @@ fn extra_programs() -> Vec<ArgCase> {
 }
 
 /// Several array elements (and fields of array elements) by reference in ONE call, with variable subscripts.
+/// A by-reference parameter that the callee only hands on to another subprogram (the inner one changes it): the change
+/// reaches the outermost caller whatever the kinds of the two subprograms and wherever the inner call stands (a
+/// statement, an expression — once or twice —, a condition, a PRINT item, three levels deep). And a call with an
+/// array element by reference whose later argument is a FUNCTION call that takes another element by reference.
+pub fn forwarding_programs() -> Vec<ArgCase> {
+    let mut out = vec![];
+    let p_int = |n: &str| Param { name: n.into(), ty: None, is_array: false };
+    for variant in 0..10 {
+        for holder in 0..3 {
+            let mut b = B::new();
+            let mut subs = vec![];
+            // FUNCTION NextId% (C%): C% = C% + 1: NextId% = C%
+            let body = vec![b.assign(var("C%"), bin(BinOp::Add, var("C%"), num(1))), b.assign(var("NextId%"), var("C%"))];
+            let id = b.id();
+            subs.push(SubDef { id, name: "NextId%".into(), is_function: true, params: vec![p_int("C%")], body, is_static: false });
+            // SUB Bump (C%): C% = C% + 1
+            let body = vec![b.assign(var("C%"), bin(BinOp::Add, var("C%"), num(1)))];
+            let id = b.id();
+            subs.push(SubDef { id, name: "Bump".into(), is_function: false, params: vec![p_int("C%")], body, is_static: false });
+            let next = || call("NextId%", vec![var("C%")]);
+            let (outer_is_function, body, label): (bool, Vec<Stmt>, &str) = match variant {
+                0 => (false, vec![b.s(K::Call("Bump".into(), vec![var("C%")])), b.assign(var("R%"), var("C%"))], "SUB hands it to a SUB"),
+                1 => (false, vec![b.assign(var("R%"), next())], "SUB hands it to a FUNCTION in an expression"),
+                2 => (false, vec![b.assign(var("R%"), bin(BinOp::Add, bin(BinOp::Mul, next(), num(100)), next()))], "SUB hands it to a FUNCTION twice in one expression"),
+                3 => (true, vec![b.s(K::Call("Bump".into(), vec![var("C%")])), b.assign(var("Outer%"), var("C%"))], "FUNCTION hands it to a SUB"),
+                4 => (true, vec![b.assign(var("Outer%"), next())], "FUNCTION hands it to a FUNCTION in an expression"),
+                5 => (true, vec![b.assign(var("Outer%"), bin(BinOp::Add, bin(BinOp::Mul, next(), num(100)), next()))], "FUNCTION hands it to a FUNCTION twice in one expression"),
+                6 => {
+                    let then = vec![b.assign(var("Outer%"), num(1))];
+                    (true, vec![b.s(K::If { arms: vec![(bin(BinOp::Gt, next(), num(0)), then)], els: None, single_line: false })], "FUNCTION hands it to a FUNCTION in a condition")
+                }
+                7 => (true, vec![b.print(vec![st("in"), next()]), b.assign(var("Outer%"), num(2))], "FUNCTION hands it to a FUNCTION in a PRINT item"),
+                8 => {
+                    // three levels: Outer% -> Via% -> NextId%
+                    let mbody = vec![b.assign(var("Via%"), bin(BinOp::Add, next(), num(0)))];
+                    let id = b.id();
+                    subs.push(SubDef { id, name: "Via%".into(), is_function: true, params: vec![p_int("C%")], body: mbody, is_static: false });
+                    (true, vec![b.assign(var("Outer%"), bin(BinOp::Sub, call("Via%", vec![var("C%")]), num(0)))], "FUNCTION -> FUNCTION -> FUNCTION")
+                }
+                _ => {
+                    // the FUNCTION never names its parameter outside the inner call, and the call is an argument of a SUB
+                    let sbody = vec![b.print(vec![st("show"), var("V%")])];
+                    let id = b.id();
+                    subs.push(SubDef { id, name: "Show".into(), is_function: false, params: vec![p_int("V%")], body: sbody, is_static: false });
+                    (true, vec![b.s(K::Call("Show".into(), vec![bin(BinOp::Add, next(), num(0))])), b.assign(var("Outer%"), num(3))], "FUNCTION hands it to a FUNCTION inside the argument of a SUB")
+                }
+            };
+            let id = b.id();
+            if outer_is_function {
+                subs.push(SubDef { id, name: "Outer%".into(), is_function: true, params: vec![p_int("C%")], body, is_static: false });
+            } else {
+                subs.push(SubDef { id, name: "Outer".into(), is_function: false, params: vec![p_int("C%"), p_int("R%")], body, is_static: false });
+            }
+            // the caller's variable: a plain variable, an array element with a variable subscript, a record field
+            let mut main = vec![];
+            let mut types = vec![];
+            let cnt: Expr = match holder {
+                0 => var("Counter%"),
+                1 => {
+                    main.push(b.s(K::Dim { shared: false, redim: false, vars: vec![DimVar { name: "CA%".into(), ty: None, dims: vec![(Some(num(1)), num(3))] }] }));
+                    main.push(b.assign(var("IX%"), num(2)));
+                    Expr::Index("CA%".into(), vec![var("IX%")])
+                }
+                _ => {
+                    types.push(TypeDef { name: "Holder".into(), fields: vec![("N".into(), DeclTy::Scalar(Ty::Int)), ("M".into(), DeclTy::Scalar(Ty::Int))] });
+                    main.push(b.s(K::Dim { shared: false, redim: false, vars: vec![DimVar { name: "H".into(), ty: Some(DeclTy::Rec("Holder".into())), dims: vec![] }] }));
+                    Expr::Field(Box::new(var("H")), "M".into())
+                }
+            };
+            main.push(b.assign(cnt.clone(), num(100)));
+            for _ in 0..2 {
+                if outer_is_function {
+                    main.push(b.assign(var("K%"), call("Outer%", vec![cnt.clone()])));
+                } else {
+                    main.push(b.s(K::Call("Outer".into(), vec![cnt.clone(), var("K%")])));
+                }
+                main.push(b.print(vec![var("K%"), cnt.clone()]));
+            }
+            // and once more inside an expression of the caller
+            if outer_is_function {
+                main.push(b.print(vec![bin(BinOp::Add, call("Outer%", vec![cnt.clone()]), call("NextId%", vec![cnt.clone()])), cnt.clone()]));
+            }
+            out.push(ArgCase { prog: Prog { types, main, subs, declare: true, ..Default::default() }, label: format!("a by-reference parameter handed on: {} / caller's variable {}", label, ["a plain variable", "an array element", "a record field"][holder]), expect_reject: false });
+        }
+    }
+    // SUB Add (T%, Amt%): T% = T% + Amt%;  FUNCTION Take% (S%): Take% = S%: S% = 0;  FUNCTION Sum% (X%, Y%): Sum% = X% + Y%: X% = -X%
+    for (i, j) in [(1i64, 3i64), (3, 2), (2, 2), (1, 1)] {
+        for shape in 0..5 {
+            let mut b = B::new();
+            let mut subs = vec![];
+            let body = vec![b.assign(var("T%"), bin(BinOp::Add, var("T%"), var("Amt%")))];
+            let id = b.id();
+            subs.push(SubDef { id, name: "Add".into(), is_function: false, params: vec![p_int("T%"), p_int("Amt%")], body, is_static: false });
+            let body = vec![b.assign(var("Take%"), var("S%")), b.assign(var("S%"), num(0))];
+            let id = b.id();
+            subs.push(SubDef { id, name: "Take%".into(), is_function: true, params: vec![p_int("S%")], body, is_static: false });
+            let body = vec![b.assign(var("Sum%"), bin(BinOp::Add, var("X%"), var("Y%"))), b.assign(var("X%"), Expr::Neg(Box::new(var("X%"))))];
+            let id = b.id();
+            subs.push(SubDef { id, name: "Sum%".into(), is_function: true, params: vec![p_int("X%"), p_int("Y%")], body, is_static: false });
+            let mut main = vec![
+                b.s(K::Dim { shared: false, redim: false, vars: vec![DimVar { name: "A%".into(), ty: None, dims: vec![(Some(num(1)), num(3))] }, DimVar { name: "B%".into(), ty: None, dims: vec![(Some(num(1)), num(3))] }, DimVar { name: "M%".into(), ty: None, dims: vec![(Some(num(1)), num(3)), (Some(num(1)), num(3))] }] }),
+            ];
+            for k in 1..=3 {
+                main.push(b.assign(Expr::Index("A%".into(), vec![num(k)]), num(k)));
+                main.push(b.assign(Expr::Index("B%".into(), vec![num(k)]), num(10 * k)));
+                main.push(b.assign(Expr::Index("M%".into(), vec![num(k), num(4 - k)]), num(100 * k)));
+            }
+            main.push(b.assign(var("I%"), num(i)));
+            main.push(b.assign(var("J%"), num(j)));
+            let a = |e: Expr| Expr::Index("A%".into(), vec![e]);
+            let bb = |e: Expr| Expr::Index("B%".into(), vec![e]);
+            let label = match shape {
+                0 => {
+                    main.push(b.s(K::Call("Add".into(), vec![a(var("I%")), call("Take%", vec![bb(var("J%"))])])));
+                    "Add A%(I%), Take%(B%(J%))"
+                }
+                1 => {
+                    main.push(b.s(K::Call("Add".into(), vec![a(var("I%")), call("Take%", vec![a(var("J%"))])])));
+                    "Add A%(I%), Take%(A%(J%))"
+                }
+                2 => {
+                    main.push(b.print(vec![call("Sum%", vec![a(var("I%")), call("Take%", vec![bb(var("J%"))])])]));
+                    "PRINT Sum%(A%(I%), Take%(B%(J%)))"
+                }
+                3 => {
+                    main.push(b.s(K::Call("Add".into(), vec![Expr::Index("M%".into(), vec![var("I%"), bin(BinOp::Sub, num(4), var("I%"))]), call("Take%", vec![Expr::Index("M%".into(), vec![var("J%"), bin(BinOp::Sub, num(4), var("J%"))])])])));
+                    "Add M%(I%, 4 - I%), Take%(M%(J%, 4 - J%))"
+                }
+                _ => {
+                    main.push(b.s(K::Call("Add".into(), vec![a(var("I%")), call("Sum%", vec![bb(var("J%")), call("Take%", vec![a(var("J%"))])])])));
+                    "Add A%(I%), Sum%(B%(J%), Take%(A%(J%)))"
+                }
+            };
+            let mut items = vec![];
+            for k in 1..=3 {
+                items.push(a(num(k)));
+            }
+            for k in 1..=3 {
+                items.push(bb(num(k)));
+            }
+            for k in 1..=3 {
+                items.push(Expr::Index("M%".into(), vec![num(k), num(4 - k)]));
+            }
+            main.push(b.print(items));
+            out.push(ArgCase { prog: Prog { main, subs, declare: true, ..Default::default() }, label: format!("an element by reference and a FUNCTION call with another element in a later argument: {} with I% = {}, J% = {}", label, i, j), expect_reject: false });
+        }
+    }
+    out
+}
+
 pub fn multi_element_programs() -> Vec<ArgCase> {
     let mut out = vec![];
     for variant in 0..6 {
